@@ -114,6 +114,7 @@ theorem statEq_phase4Model (cfg : Cfg) (g g' : G) (h : phase4Model cfg g = .ok g
       | ok g1 =>
         simp only [h1, Except.map, Except.ok.injEq] at h; subst h
         exact (BK.statEq_bk _ _ _ _ h1).trans (statEq_assignY _ _)
+    · simp only [pure, Except.pure, Except.ok.injEq] at h; subst h; exact StatEq.refl _
     · cases h
 
 /-- END TO END: one component through the whole composed model, for every configuration with exact models and every ordering
